@@ -226,7 +226,9 @@ func (p *planner) binary() {
 		}
 		ctxs := []string{"as", "def", "opas", "ret", "if", "iface"}
 		if o.Grp == "cmp" || o.Grp == "logic" {
-			ctxs = []string{"as", "def", "ret", "if", "iface"}
+			// ifn, ifna: the negated operation as branch condition, alone and as
+			// left operand of && (a NaN operand makes !(a < b) differ from a >= b)
+			ctxs = []string{"as", "def", "ret", "if", "iface", "ifn", "ifna"}
 		}
 		for _, k := range kinds {
 			if !o.applies(k) {
@@ -626,6 +628,10 @@ func (g *group) stmt(w *writer, l, r, ys, fn, args string) string {
 	case "iface":
 		w.ifc = true
 		return fmt.Sprintf("\t{\n\t\tvar i interface{} = %s\n\t\tpIface(%s, x, %s, i)\n\t}\n", e, id, ys)
+	case "ifn":
+		return fmt.Sprintf("\tif !(%s) {\n\t\t%s\n\t} else {\n\t\t%s\n\t}\n", e, pr(R, "false"), pr(R, "true"))
+	case "ifna":
+		return fmt.Sprintf("\tfor n := 0; !(%s) && n < 1; n++ {\n\t\t%s\n\t\treturn\n\t}\n\t%s\n", e, pr(R, "false"), pr(R, "true"))
 	case "if":
 		if R.Class == "bool" {
 			return fmt.Sprintf("\tif %s {\n\t\t%s\n\t} else {\n\t\t%s\n\t}\n", e, pr(R, "true"), pr(R, "false"))
